@@ -164,6 +164,33 @@ def replay(case):
     return judge(case["name"], case["role"])[0]
 
 
+# ---- atheris adapters (thorough tier) ---------------------------------------------------------------------------------
+
+def fuzz_decode(fdp):
+    n = fdp.ConsumeIntInRange(1, 5)
+    toks = []
+    for _ in range(n):
+        k = fdp.ConsumeIntInRange(0, 3)
+        if k <= 1:
+            toks.append(TOKENS_THOROUGH[fdp.ConsumeIntInRange(0, len(TOKENS_THOROUGH) - 1)])
+        elif k == 2:
+            toks.append(str(fdp.ConsumeIntInRange(-5, 3000)))
+        else:
+            toks.append(fdp.ConsumeUnicodeNoSurrogates(6).replace("_", ""))
+    name = "_".join(toks)
+    if has_dim_tag(name):
+        return None
+    return {"name": name, "role": "ob"[fdp.ConsumeBool()]}
+
+
+def fuzz_judge(case):
+    return judge(case["name"], case["role"])[0]
+
+
+def fuzz_nontrivial(case):
+    return "_" in case["name"]
+
+
 def run(tier):
     tokens = TOKENS_QUICK if tier == "quick" else TOKENS_THOROUGH
     max_len = 4
@@ -179,6 +206,9 @@ def run(tier):
     results += pmap(_factory, todo)
     results += pmap(_hyp_shard, [(s, (2000 if tier == "quick" else 40000) // 16) for s in range(16)])
     res = merge_results(results)
+    if tier == "thorough":
+        from vlib.core import run_fuzz_campaign
+        res.merge(run_fuzz_campaign("C17", runs=800000, shards=16))
     res.violations.sort(key=lambda v: len(str(v["case"])))
     rule = (f"exhaustive: all names of 1..{max_len} tokens over the {len(tokens)}-token alphabet {tokens} for both roles "
             f"(names with a dimension tag skipped as unspecified); every distinct accepted standard name with N<={limit} "
